@@ -195,7 +195,7 @@ def Pat.vars : Pat → List String
   | .obj _ none => []
   | .obj _ (some p) => p.vars
   | .bind x => [x]
-  | .as p x => p.vars ++ [x]
+  | .as p x => x :: p.vars
   | .or p q => p.vars ++ q.vars
   | .and p q => p.vars ++ q.vars
   | .opt p => p.vars
@@ -270,7 +270,7 @@ def matchP (ρ : Env) : Pat → V → Option Bindings
     else none
   | .bind x, v => some [(x, v)]
   | .as p x, v => match matchP ρ p v with
-    | some b => some (b ++ [(x, v)])
+    | some b => some ((x, v) :: b)       -- `x` is stored first (`asPattern`), an inner binding of the same name wins
     | none => none
   | .or p q, v => match matchP ρ p v with
     | some b => some (b ++ nils q.vars)
@@ -489,5 +489,149 @@ def switchTy (arms : List Ty) (elseTy : Option Ty) : Ty :=
   match elseTy with
   | some e => .union u e
   | none => .union u (.lit .nil)
+
+
+/-! ## the compiled matcher — mirror of `compiler/bytecode_compiler.go` `pattern`
+
+The bytecode tests a pattern from left to right with early exit and *assigns variables as it goes*:
+`p as x` stores the value in `x` before testing `p` (`asPattern`), an identifier pattern stores and
+answers true, `p || q` runs `q` after a failed `p` without resetting what `p` assigned, a named rest
+variable is initialised to `[]` before the class test and filled once the elements before it have
+matched.  `cmatch` answers the verdict and the sequence of stores performed (also on failure).
+A variable that is never stored keeps whatever its stack slot held (`Slot.stale`). -/
+
+abbrev Writes := List (String × V)
+
+def Rest.init : Rest → Writes
+  | .named x => [(x, V.list [])]
+  | _ => []
+
+/-- stores of `[pre…, *r, post…]` after the class test, given the results for `pre` (against the first
+elements) and `post` (against the last ones): length test, `pre`, the rest loop, `post` -/
+def cseqCombine (r : Rest) (npre npost : Nat) (xs : List V) (cpre cpost : Bool × Writes) : Bool × Writes :=
+  if lenOk r npre npost xs.length then
+    if cpre.1 then
+      (cpost.1, cpre.2 ++ (r.vars.map (·, V.list ((xs.drop npre).take (xs.length - npre - npost)))) ++ cpost.2)
+    else (false, cpre.2)
+  else (false, [])
+
+mutual
+def cmatch (ρ : Env) : Pat → V → Bool × Writes
+  | .lit s, v => (match v with | .sc t => decide (t = s) | _ => false, [])
+  | .interp pre x, v =>
+    (match ρ.get x, v with
+      | some (.str s), .sc (.str t) => decide (t = pre ++ s)
+      | _, _ => false, [])
+  | .range op lo hi, v => (inRange op lo hi v, [])
+  | .list pre r post, v =>
+    match v with
+    | .list xs =>
+      let c := cseqCombine r pre.length post.length xs (celems ρ pre xs)
+        (celems ρ post (xs.drop (postStart r pre.length post.length xs)))
+      (c.1, r.init ++ c.2)
+    | _ => (false, r.init)
+  | .tup pre r post, v =>
+    match v with
+    | .list xs =>
+      let c := cseqCombine r pre.length post.length xs (celems ρ pre xs)
+        (celems ρ post (xs.drop (postStart r pre.length post.length xs)))
+      (c.1, r.init ++ c.2)
+    | .tup xs =>
+      let c := cseqCombine r pre.length post.length xs (celems ρ pre xs)
+        (celems ρ post (xs.drop (postStart r pre.length post.length xs)))
+      (c.1, r.init ++ c.2)
+    | _ => (false, r.init)
+  | .map ks ps, v => match v with
+    | .map kvs => ckeys ρ ks ps kvs
+    | _ => (false, [])
+  | .recd ks ps, v => match v with
+    | .map kvs => ckeys ρ ks ps kvs
+    | .recd kvs => ckeys ρ ks ps kvs
+    | _ => (false, [])
+  | .obj c none, v => (isA v c, [])
+  | .obj c (some p), v =>
+    if isA v c then
+      match lengthOf v with
+      | some n => cmatch ρ p (.sc (.int n))
+      | none => (false, [])
+    else (false, [])
+  | .bind x, v => (true, [(x, v)])
+  | .as p x, v =>
+    let r := cmatch ρ p v
+    (r.1, (x, v) :: r.2)
+  | .or p q, v =>
+    let r := cmatch ρ p v
+    if r.1 then r else
+      let r' := cmatch ρ q v
+      (r'.1, r.2 ++ r'.2)
+  | .and p q, v =>
+    let r := cmatch ρ p v
+    if r.1 then
+      let r' := cmatch ρ q v
+      (r'.1, r.2 ++ r'.2)
+    else r
+  | .opt p, v =>
+    let r := cmatch ρ p v
+    if r.1 then r else (match v with | .sc .nil => true | _ => false, r.2)
+  | .must, v => (match v with | .sc .nil => false | _ => true, [])
+  | .rel op o, v => (match o.val ρ with | some s => relHolds op v s | none => false, [])
+
+/-- element patterns against the first elements, left to right, stopping at the first failure -/
+def celems (ρ : Env) : List Pat → List V → Bool × Writes
+  | [], _ => (true, [])
+  | _ :: _, [] => (false, [])
+  | p :: ps, x :: xs =>
+    let r := cmatch ρ p x
+    if r.1 then
+      let r' := celems ρ ps xs
+      (r'.1, r.2 ++ r'.2)
+    else r
+
+def ckeys (ρ : Env) : List Scalar → List Pat → List (Scalar × V) → Bool × Writes
+  | k :: ks, p :: ps, kvs =>
+    let r := cmatch ρ p (lookupKey kvs k)
+    if r.1 then
+      let r' := ckeys ρ ks ps kvs
+      (r'.1, r.2 ++ r'.2)
+    else r
+  | [], [], _ => (true, [])
+  | _, _, _ => (false, [])
+end
+
+mutual
+/-- no `||` / `?` anywhere in the pattern -/
+def Pat.altFree : Pat → Bool
+  | .or _ _ | .opt _ => false
+  | .list pre _ post | .tup pre _ post => altFreeL pre && altFreeL post
+  | .map _ ps | .recd _ ps => altFreeL ps
+  | .obj _ (some p) => p.altFree
+  | .as p _ => p.altFree
+  | .and p q => p.altFree && q.altFree
+  | _ => true
+def altFreeL : List Pat → Bool
+  | [] => true
+  | p :: ps => p.altFree && altFreeL ps
+end
+
+inductive Slot where
+  | val (v : V)
+  | stale
+deriving Repr, Inhabited
+
+/-- content of variable `x` after the stores `w` (the last store wins; never stored = stale) -/
+def Writes.slot (w : Writes) (x : String) : Slot :=
+  match w.reverse.find? (·.1 == x) with
+  | some (_, v) => .val v
+  | none => .stale
+
+/-- the compiled `switch`: first case whose compiled pattern answers true, with the stores of that
+case (every case runs in its own scope) -/
+def cselectFrom (ρ : Env) (v : V) : Nat → List Pat → Option (Nat × Writes)
+  | _, [] => none
+  | i, p :: ps =>
+    let r := cmatch ρ p v
+    if r.1 then some (i, r.2) else cselectFrom ρ v (i + 1) ps
+
+def cselect (ρ : Env) (cases : List Pat) (v : V) : Option (Nat × Writes) := cselectFrom ρ v 0 cases
 
 end Elk.Pattern
